@@ -16,6 +16,6 @@ type VerifBackoff struct{ b backoff }
 func NewVerifBackoff(base, factor, cap int, noJitter bool) *VerifBackoff {
 	return &VerifBackoff{b: backoff{NoJitter: noJitter, Base: base, Factor: factor, Cap: cap}}
 }
-func (v *VerifBackoff) Duration() time.Duration                  { return v.b.duration() }
+func (v *VerifBackoff) Duration() time.Duration                { return v.b.duration() }
 func (v *VerifBackoff) DurationForAttempt(n int) time.Duration { return v.b.durationForAttempt(n) }
 func (v *VerifBackoff) Reset()                                 { v.b.reset() }
